@@ -2,10 +2,15 @@ package main
 
 // component "supervise" (C18): a scripted source fails after given numbers of events; the executor must re-create, set up
 // and restart it (hard-coded 10 s pause per restart) and end the run on a nil return.
-// input: "sup <nevents> fails=<a,b,..|-> [delay=<incarnation>:<ms>] [cancelwrap=1]"
+// input: "sup <nevents> fails=<a,b,..|-> [delay=<incarnation>:<ms>] [cancelwrap=1] [runms=<incarnation>:<ms>] [setupfail=<incarnation>]"
+// runms: that incarnation keeps running for so long before it fails.  setupfail: the Setup of that incarnation returns an
+// error — the executor ends the process (os.Exit), so the scenario runs in a child process whose lifecycle log is streamed.
 
 import (
+	"bufio"
 	"fmt"
+	"os"
+	"os/exec"
 	"strconv"
 	"strings"
 	"time"
@@ -26,6 +31,8 @@ func genSupervise(r *rng, n int, tier string, emit func(string)) {
 	emit("sup 5 fails=5")
 	emit("sup 6 fails=2 cancelwrap=1")
 	emit("sup 4 fails=1 delay=2:10600")
+	emit("sup 3 fails=1 runms=1:10600")
+	emit("sup 4 fails=2 setupfail=2")
 	if tier == "thorough" {
 		emit("sup 9 fails=2,0,4")
 		emit("sup 3 fails=1,1")
@@ -47,7 +54,10 @@ func execSupervise(input string) string {
 		return "bad-input"
 	}
 	n, _ := strconv.Atoi(f[1])
-	src := &sourceScript{stopAt: -1, setupDelay: map[int]time.Duration{}}
+	if strings.Contains(input, "setupfail=") && os.Getenv("FBV_CHILD") == "" {
+		return superviseInChild(input)
+	}
+	src := &sourceScript{stopAt: -1, setupDelay: map[int]time.Duration{}, runFor: map[int]time.Duration{}}
 	for _, o := range f[2:] {
 		switch {
 		case strings.HasPrefix(o, "fails=") && o != "fails=-":
@@ -62,6 +72,13 @@ func execSupervise(input string) string {
 			src.setupDelay[inc] = time.Duration(ms) * time.Millisecond
 		case o == "cancelwrap=1":
 			src.cancelWrap = true
+		case strings.HasPrefix(o, "runms="):
+			p := strings.Split(strings.TrimPrefix(o, "runms="), ":")
+			inc, _ := strconv.Atoi(p[0])
+			ms, _ := strconv.Atoi(p[1])
+			src.runFor[inc] = time.Duration(ms) * time.Millisecond
+		case strings.HasPrefix(o, "setupfail="):
+			src.setupFailAt, _ = strconv.Atoi(strings.TrimPrefix(o, "setupfail="))
 		}
 	}
 	for i := 0; i < n; i++ {
@@ -88,6 +105,12 @@ func execSupervise(input string) string {
 	budget := time.Duration(len(src.failAfter))*10500*time.Millisecond + 6*time.Second
 	for _, d := range src.setupDelay {
 		budget += d
+	}
+	for _, d := range src.runFor {
+		budget += d
+	}
+	if src.setupFailAt != 0 {
+		budget += 15 * time.Second // long enough to see whether anything is started after the failed Setup
 	}
 	select {
 	case <-done:
@@ -122,5 +145,61 @@ func execSupervise(input string) string {
 	if recv == "" {
 		recv = "-"
 	}
-	return fmt.Sprintf("log=%s outch=%d params=%d ids=%d recv=%s returned=%s", strings.Join(log, ","), distinct(src.outCh), distinct(src.params), distinct(ids), recv, b01(returned))
+	// pause between a failed Start returning and the next Start
+	var pauses []string
+	for i, ft := range src.failTimes {
+		if i+1 < len(src.startTimes) {
+			pauses = append(pauses, strconv.FormatInt(src.startTimes[i+1].Sub(ft).Milliseconds(), 10))
+		}
+	}
+	ps := "-"
+	if len(pauses) > 0 {
+		ps = strings.Join(pauses, ",")
+	}
+	return fmt.Sprintf("log=%s outch=%d params=%d ids=%d recv=%s returned=%s pauses=%s", strings.Join(log, ","), distinct(src.outCh), distinct(src.params), distinct(ids), recv, b01(returned), ps)
+}
+
+// superviseInChild runs a scenario that ends in os.Exit in a child process and reports the lifecycle log it streamed
+func superviseInChild(input string) string {
+	cmd := exec.Command(os.Args[0], "exec", "supervise")
+	cmd.Env = append(os.Environ(), "FBV_CHILD=1")
+	cmd.Stdin = strings.NewReader("c\t" + input + "\n")
+	stderr, err := cmd.StderrPipe()
+	if err != nil {
+		return "harness-error " + err.Error()
+	}
+	if err := cmd.Start(); err != nil {
+		return "harness-error " + err.Error()
+	}
+	var log []string
+	done := make(chan struct{})
+	go func() {
+		sc := bufio.NewScanner(stderr)
+		for sc.Scan() {
+			if l := sc.Text(); strings.HasPrefix(l, "LOG ") {
+				l = strings.TrimPrefix(l, "LOG ")
+				if strings.HasPrefix(l, "init") {
+					l = strings.SplitN(l, ":", 2)[0]
+				}
+				if !strings.HasPrefix(l, "shutdown") {
+					log = append(log, l)
+				}
+			}
+		}
+		close(done)
+	}()
+	exited := make(chan error, 1)
+	go func() { <-done; exited <- cmd.Wait() }()
+	status := "running"
+	select {
+	case err := <-exited:
+		status = "0"
+		if ee, ok := err.(*exec.ExitError); ok {
+			status = strconv.Itoa(ee.ExitCode())
+		}
+	case <-time.After(40 * time.Second):
+		_ = cmd.Process.Kill()
+		<-exited
+	}
+	return fmt.Sprintf("log=%s exit=%s", strings.Join(log, ","), status)
 }
